@@ -513,12 +513,12 @@ static char *mk_none(const char *pjson)
 }
 
 #define NTOK 11
-static char *CTOK[6][NTOK];
+static char *CTOK[7][NTOK];
 static const char *ctok_name[NTOK] = { "valid", "valid2", "expires-at-T0+100", "bad-signature", "wrong-alg", "no-dot", "bad-b64-header",
 				       "header-without-alg", "unsigned-none", "empty-string", "NULL" };
-enum { CC_NOKEY, CC_HS, CC_ES_ISS, CC_CB_KID, CC_CB_KID_LENIENT, CC_CB_EDIT, NCC };
+enum { CC_NOKEY, CC_HS, CC_ES_ISS, CC_CB_KID, CC_CB_KID_LENIENT, CC_CB_EDIT, CC_CB_CTX, NCC };
 static const char *cc_name[NCC] = { "no-key", "HS256-key", "ES256-pubkey+iss", "callback-selects-key-by-kid", "callback-selects-key-by-kid-or-leaves-config-untouched",
-				    "HS256-key+iss+callback-that-edits-the-token" };
+				    "HS256-key+iss+callback-that-edits-the-token", "callback-selects-key-by-kid-and-overwrites-config->ctx" };
 
 static int kid_cb(jwt_t *jwt, jwt_config_t *cfg)
 {
@@ -562,6 +562,26 @@ static int edit_cb(jwt_t *jwt, jwt_config_t *cfg)
 	return 0;
 }
 
+/* selects the key by kid through its context (the keyring), then uses config->ctx as scratch space: the change is to the
+ * per-call copy of the configuration and must not be there at the next call */
+static int ctx_cb(jwt_t *jwt, jwt_config_t *cfg)
+{
+	jwt_value_t v;
+	jwk_set_t *set = cfg->ctx;
+	if (set != ring)
+		return 0;   /* context lost: no key is selected (a keyed token is then refused for lack of a key) */
+	cfg->ctx = NULL;
+	jwt_set_GET_STR(&v, "kid");
+	if (jwt_header_get(jwt, &v) != JWT_VALUE_ERR_NONE)
+		return 0;
+	jwk_item_t *it = jwks_find_bykid(set, v.str_val);
+	if (!it)
+		return 0;
+	cfg->key = it;
+	cfg->alg = jwks_item_alg(it);
+	return 0;
+}
+
 static jwt_checker_t *cc_checker(int cc)
 {
 	jwt_checker_t *c = jwt_checker_new();
@@ -573,6 +593,7 @@ static jwt_checker_t *cc_checker(int cc)
 		break;
 	case CC_CB_KID: jwt_checker_setcb(c, kid_cb, ring); break;
 	case CC_CB_KID_LENIENT: jwt_checker_setcb(c, kid_lenient_cb, ring); break;
+	case CC_CB_CTX: jwt_checker_setcb(c, ctx_cb, ring); break;
 	case CC_CB_EDIT:
 		jwt_checker_setkey(c, JWT_ALG_HS256, it_h1);
 		jwt_checker_claim_set(c, JWT_CLAIM_ISS, "good");
@@ -627,8 +648,10 @@ static void c13_setup(void)
 	CTOK[CC_CB_KID_LENIENT][2] = mk_es("{\"alg\":\"ES256\",\"kid\":\"e1\"}", PX, 0);
 	CTOK[CC_CB_KID_LENIENT][3] = mk_hs("{\"alg\":\"HS256\",\"kid\":\"zz\"}", P1, K32, JWT_ALG_HS256, 0);
 	CTOK[CC_CB_KID_LENIENT][4] = mk_es("{\"alg\":\"ES256\"}", P2, 0);
-	for (int i = 0; i < 5; i++)
+	for (int i = 0; i < 5; i++) {
 		CTOK[CC_CB_EDIT][i] = strdup(CTOK[CC_HS][i]);
+		CTOK[CC_CB_CTX][i] = strdup(CTOK[CC_CB_KID][i]);
+	}
 	for (int cc = 0; cc < NCC; cc++) {
 		CTOK[cc][5] = strdup("abcdef");
 		CTOK[cc][6] = strdup("!!!.e30.");
@@ -680,9 +703,10 @@ static void c13_checker_history(int cc, const int *ops, int n, const char *desc)
 
 /* ---- builder histories ---- */
 enum { BO_SETKEY_GOOD, BO_SETKEY_WEAK512, BO_SETKEY_NONE, BO_SETKEY_PUBLIC, BO_SETCB_FAIL, BO_SETCB_MUT, BO_SETCB_NULL, BO_GENERATE, BO_CLEAR, BO_CLOCK,
-       BO_CLAIM_SUB, BO_CLAIM_DEL, BO_SETKEY_ES, BO_SETCB_SOMETIMES_KEY, NBO };
+       BO_CLAIM_SUB, BO_CLAIM_DEL, BO_SETKEY_ES, BO_SETCB_SOMETIMES_KEY, BO_SETCB_CTX, NBO };
 static const char *bo_name[NBO] = { "setkey(HS256,oct32)", "setkey(HS512,oct32)", "setkey(none,NULL)", "setkey(ES256,public)!", "setcb(failing)", "setcb(mutating)",
-				    "setcb(NULL)", "generate", "error_clear", "clock+200", "claim_set(sub)", "claim_del(sub)", "setkey(EdDSA,ed25519)", "setcb(selects key only at even clock steps)" };
+				    "setcb(NULL)", "generate", "error_clear", "clock+200", "claim_set(sub)", "claim_del(sub)", "setkey(EdDSA,ed25519)", "setcb(selects key only at even clock steps)",
+				    "setcb(selects key through its context, then overwrites config->ctx)" };
 static jwk_set_t *ed_set;
 
 static int fail_cb(jwt_t *jwt, jwt_config_t *cfg) { (void)jwt; (void)cfg; return 1; }
@@ -707,9 +731,21 @@ static int sometimes_key_cb(jwt_t *jwt, jwt_config_t *cfg)
 	return 0;
 }
 
+/* builder callback: selects the key only while its context is intact, and overwrites config->ctx on the way */
+static int bctx_cb(jwt_t *jwt, jwt_config_t *cfg)
+{
+	(void)jwt;
+	if (cfg->ctx == (void *)ring) {
+		cfg->key = it_h1;
+		cfg->alg = JWT_ALG_HS256;
+	}
+	cfg->ctx = NULL;
+	return 0;
+}
+
 typedef struct {
 	int key;  /* 0 none, 1 HS256 good, 2 HS512 weak, 3 EdDSA */
-	int cb;   /* 0 none, 1 failing, 2 mutating, 3 sometimes selects a key */
+	int cb;   /* 0 none, 1 failing, 2 mutating, 3 sometimes selects a key, 4 context-overwriting */
 	int sub;
 } bmodel_t;
 
@@ -721,6 +757,7 @@ static void bmodel_apply(jwt_builder_t *b, const bmodel_t *m)
 	if (m->cb == 1) jwt_builder_setcb(b, fail_cb, NULL);
 	else if (m->cb == 2) jwt_builder_setcb(b, mut_cb, NULL);
 	else if (m->cb == 3) jwt_builder_setcb(b, sometimes_key_cb, NULL);
+	else if (m->cb == 4) jwt_builder_setcb(b, bctx_cb, ring);
 	if (m->sub) {
 		jwt_value_t v;
 		jwt_set_SET_STR(&v, "sub", "s");
@@ -750,6 +787,7 @@ static void c13_builder_history(const int *ops, int n, const char *desc)
 		case BO_SETCB_MUT: if (!jwt_builder_setcb(b, mut_cb, NULL)) m.cb = 2; break;
 		case BO_SETCB_NULL: if (!jwt_builder_setcb(b, NULL, NULL)) m.cb = 0; break;
 		case BO_SETCB_SOMETIMES_KEY: if (!jwt_builder_setcb(b, sometimes_key_cb, NULL)) m.cb = 3; break;
+		case BO_SETCB_CTX: if (!jwt_builder_setcb(b, bctx_cb, ring)) m.cb = 4; break;
 		case BO_CLEAR: jwt_builder_error_clear(b); break;
 		case BO_CLOCK: clock += 200; break;
 		case BO_CLAIM_SUB:
